@@ -531,4 +531,25 @@ example : (render w1 cfgM 15 2 false "abcdefghijklmnop".toList 16 s0).map
     (fun r => (r.width, r.xoff, cursorFound r.st r.cy r.cx, decide ((cursorScreen r.st r.cy r.cx).2 < 7 + 9))) =
       some (9, 7, true, true) := by decide
 
+/-! ### BeforeInput with `[ZeroWidthEscape]` fragments in the prompt -/
+
+/-- "$ " wrapped in shell-integration escapes: a zero-width fragment before, between and after the
+    visible characters (as `ANSI("\001..\002$\001..\002 \001..\002")` with a `style=` produces them) -/
+def cfgZ : Cfg := { cfg0 with procs := [.beforeF [(true, "\x1b]133;A\x07".toList), (false, "$".toList),
+                                                 (true, "\x1b]133;B\x07".toList), (false, " ".toList), (true, "zz".toList)]] }
+
+-- the shift is the number of visible characters (2), not the total length (16); round trip for every column
+example : fragLen [(true, "\x1b]133;A\x07".toList), (false, "$".toList), (true, "zz".toList), (false, " ".toList)] = 2 := by decide
+example : (merged 0 1 cfgZ.procs "ab".toList).frags = "$ ab".toList ∧
+    (merged 0 1 cfgZ.procs "ab".toList).s2d 1 = some 3 ∧ (merged 0 1 cfgZ.procs "ab".toList).d2s 3 = 1 := by decide
+example := merged_good 0 1 cfgZ.procs (by intro p hp; simp [cfgZ, cfg0] at hp; subst hp; simp [ProcOK]) "ab".toList
+/-- the cursor theorem with zero-width-escape fragments in the BeforeInput prompt (instance of
+    `render_cursor_on_char`, which covers `.beforeF` through `merged_good`) -/
+example := render_cursor_on_char w1_W1 cfgZ (by intro p hp; simp [cfgZ, cfg0] at hp; subst hp; simp [ProcOK])
+  4 1 4 false "abcdef".toList 6 sOld (by decide) (by decide) (by decide)
+  (fun f h => by simp [cfgZ, cfg0, Cfg.prefixFn] at h)
+example : (render w1 cfgZ 4 1 false "abcdef".toList 6 sOld).map
+    (fun r => (r.cx, cursorFound r.st r.cy r.cx, cellAt r.st.cells (cursorScreen r.st r.cy r.cx))) =
+      some (8, true, [' ']) := by decide
+
 end Ptk.C11
